@@ -466,6 +466,12 @@ func TestVerifC02Restore(t *testing.T) {
 		c := rec.NewCase()
 		n := rapid.IntRange(10, maxCmds).Draw(t, "ncmds")
 		k := rapid.IntRange(0, n).Draw(t, "cut")
+		switch rapid.IntRange(0, 19).Draw(t, "cutkind") { // both ends of the quantifier are hit on purpose
+		case 0:
+			k = 0
+		case 1:
+			k = n
+		}
 		plan := &vs.FCmd{Kind: "plan", Cuts: []int{k}}
 		if rapid.IntRange(0, 9).Draw(t, "secondcut") < 3 {
 			plan.Cuts = append(plan.Cuts, rapid.IntRange(k, n).Draw(t, "cut2"))
